@@ -260,26 +260,13 @@ Proof.
   intros E. apply (f_equal Prim2SF) in E. vm_compute in E. discriminate E.
 Qed.
 
-
-(* ------------------------------------------------------------------ Cost in release builds:
-   `a + b` wraps, and min-plus with a wrapping plus is not a semiring *)
-Definition SrLawRel (t : srty) (p : ex * ex) : Prop :=
-  forall a b c u v,
-    sr_eval_rel t a b c (fst p) = Some u -> sr_eval_rel t a b c (snd p) = Some v -> u = v.
-
-Lemma cost_release_left_dist_refuted :
-  exists a b c u v,
-    sr_eval_rel SCost a b c (XMul XA (XAdd XB XC)) = Some u /\
-    sr_eval_rel SCost a b c (XAdd (XMul XA XB) (XMul XA XC)) = Some v /\ u <> v.
-Proof.
-  exists (VN 4294967295), (VN 1), (VN 0), (VN 4294967295), (VN 0).
-  split; [vm_compute; reflexivity|]. split; [vm_compute; reflexivity|]. discriminate.
-Qed.
-
-Lemma cost_release_not_semiring : ~ Forall (SrLawRel SCost) semiring_law_pairs.
-Proof.
-  intros H. unfold semiring_law_pairs in H.
-  repeat match goal with H : Forall _ (_ :: _) |- _ => inversion H; clear H; subst end.
-  destruct cost_release_left_dist_refuted as (a & b & c & u & v & Hu & Hv & Hne).
-  apply Hne. match goal with H : SrLawRel SCost (XMul XA (XAdd XB XC), _) |- _ => exact (H a b c u v Hu Hv) end.
-Qed.
+(* Former finding (fixed in /repo commit eb5e08fe819): Cost::mul added with an unchecked
+   `a + b`, which wraps modulo 2^32 when overflow checks are off (release profile); with
+   a = Finite(4294967295), b = Finite(1), c = Finite(0): a*(b+c) = Finite(4294967295) but
+   a*b + a*c = Finite(0).  The code now uses checked_add(..).unwrap(), so the model panics on
+   overflow in every profile and cost_semiring covers release builds too; the witness stays
+   in corpus/C09/cost_release_overflow.json and is pinned here. *)
+Example cost_former_release_witness :
+  sr_eval SCost (VN 4294967295) (VN 1) (VN 0) (XMul XA (XAdd XB XC)) = Some (VN 4294967295) /\
+  sr_eval SCost (VN 4294967295) (VN 1) (VN 0) (XAdd (XMul XA XB) (XMul XA XC)) = None.
+Proof. vm_compute. split; reflexivity. Qed.
